@@ -540,3 +540,5 @@ def run(eng, rep):
                         "success is never attached to a non-finite objective: reduces to C08-1 (selection is NaN-total)"]
     rule_messages(eng, rep)
     rule_nruns(eng, rep)
+    from .records import rule_mean_over_samples_run
+    rule_mean_over_samples_run(eng, rep, "C10-1c.tested-value-is-the-mean-over-the-samples-actually-run")
